@@ -109,6 +109,7 @@ def parseReq : List String → Option Req
   | ["reset_interrupted"] => some .resetInterrupted
   | ["rescan_env"] => some .rescanEnv
   | ["reconcile"] => some .reconcile
+  | ["check_consistency"] => some .checkConsistency
   | _ => none
 
 def handle (sess : Session) : List String → Option (Session × String)
@@ -119,6 +120,9 @@ def handle (sess : Session) : List String → Option (Session × String)
     pure (sess, s!"ok - {sess.st.digest}")
   | ["setenv", env] => do
     pure ({ sess with cfg := { sess.cfg with env := ← parsePairs env } }, s!"ok - {sess.st.digest}")
+  | ["retarget", targets, dirs] => do
+    pure ({ sess with cfg := { sess.cfg with targets := ← unhexList targets, targetDirs := ← unhexList dirs } },
+      s!"ok - {sess.st.digest}")
   | ["dump"] => pure (sess, "|".intercalate sess.st.dumpLines)
   | ["lasterr"] => pure (sess, sess.lastErr)
   | toks => do
